@@ -548,7 +548,7 @@ class SymEval:
         if g in NP_FUNCS:
             return NP_FUNCS[g]
         if n.id in ('range', 'len', 'int', 'float', 'abs', 'sum', 'min', 'max', 'list', 'tuple', 'isinstance', 'complex', 'round', 'zip', 'enumerate', 'str'):
-            return {'range': lambda *a: list(range(*[int(x) for x in a])), 'len': len, 'int': lambda x: x, 'float': lambda x: x,
+            return {'range': lambda *a: list(range(*[int(x) for x in a])), 'len': len, 'int': lambda x: (S(int(x)) if isinstance(x, str) else x), 'float': lambda x: (S(int(x)) if isinstance(x, str) and x.strip().lstrip('+-').isdigit() else (S(float(x)) if isinstance(x, str) else x)),
                     'abs': lambda x: sp.Abs(x), 'sum': lambda x: sum(x), 'min': lambda *a: sp.Min(*(a[0] if len(a) == 1 else a)),
                     'max': lambda *a: sp.Max(*(a[0] if len(a) == 1 else a)), 'list': list, 'tuple': tuple,
                     'isinstance': lambda *a: Opaque, 'complex': lambda a, b=0: a + sp.I * b, 'round': lambda x, n=0: x,
@@ -791,6 +791,8 @@ class SymEval:
                 return base.size
             if attr == 'dtype':
                 return None
+            if attr == 'flat':
+                return list(base.flat)
             if attr == 'real':
                 return vmap(sp.re, base)
             if attr == 'imag':
@@ -834,8 +836,14 @@ class SymEval:
                 return base.setdefault
         if isinstance(base, list) and attr in ('append', 'index', 'pop', 'insert', 'extend', 'count', 'copy'):
             return getattr(base, attr)
-        if isinstance(base, str) and attr in ('strip', 'split', 'lower', 'upper', 'startswith', 'endswith', 'isalpha', 'isdigit'):
+        if isinstance(base, str) and attr in ('strip', 'split', 'lower', 'upper', 'startswith', 'endswith', 'isalpha', 'isdigit', 'find', 'rfind', 'replace', 'lstrip', 'rstrip', 'count'):
             return getattr(base, attr)
+        if isinstance(base, str) and attr == 'index':
+            def _index(sub):
+                if sub not in base:
+                    raise ModelError('ValueError', 'substring not found')
+                return base.index(sub)
+            return _index
         if isinstance(base, str) and attr == 'join':
             def _join(items):
                 items = list(items)
